@@ -8,7 +8,7 @@ from __future__ import annotations
 import ast
 
 from ..astutil import const_value as const_value
-from ..astutil import (call_name, calls_in, find_func, is_self_attr, parse_stmt, replace_node, enclosing_stmt)
+from ..astutil import (names_in, call_name, calls_in, find_func, is_self_attr, parse_stmt, replace_node, enclosing_stmt)
 from ..cfg import CFG
 from ..effects import Effects
 from ..frontend import AnalysisError, walk_function
@@ -520,9 +520,37 @@ def _r4(ctx, acquire, release):
     ctx.rule("R-C13-4", floor=3, what="only None names get placeholders; only placeholders are reset; both results are re-ordered to the canonical level order")
     comp = [n for n in ast.walk(acquire.node) if isinstance(n, ast.ListComp)]
     if len(comp) != 1 or not isinstance(comp[0].generators[0].target, ast.Name):
-        raise AnalysisError("%s: the comprehension building the new level names not found" % acquire.name)
-    v = comp[0].generators[0].target.id
-    e = comp[0].elt
+        # second idiom: an explicit loop over the level names that re-binds the name under a test and appends it
+        loops = [n for n in ast.walk(acquire.node) if isinstance(n, ast.For) and isinstance(n.target, ast.Name) and
+                 isinstance(n.iter, ast.Attribute) and n.iter.attr == "names"]
+        if len(loops) != 1:
+            raise AnalysisError("%s: the comprehension / loop building the new level names not found" % acquire.name)
+        lp = loops[0]
+        v = lp.target.id
+        tests = [x for x in lp.body if isinstance(x, ast.If) and v in names_in(x.test)]
+        appended = [c for c in calls_in(lp) if isinstance(c.func, ast.Attribute) and c.func.attr == "append" and len(c.args) == 1
+                    and isinstance(c.args[0], ast.Name) and c.args[0].id == v and
+                    any(c is getattr(x, "value", None) for x in lp.body)]
+        if len(tests) != 1 or not appended:
+            raise AnalysisError("%s: the loop building the new level names was not understood" % acquire.name)
+        t = tests[0].test
+        ident = isinstance(t, ast.Compare) and len(t.ops) == 1 and isinstance(t.left, ast.Name) and t.left.id == v and \
+            isinstance(t.comparators[0], ast.Constant) and t.comparators[0].value is None and isinstance(t.ops[0], (ast.Is, ast.IsNot))
+        arm = (tests[0].body if isinstance(t.ops[0], ast.Is) else tests[0].orelse) if ident else []
+        other = (tests[0].orelse if isinstance(t.ops[0], ast.Is) else tests[0].body) if ident else []
+        rebinds = any(isinstance(x, ast.Assign) and isinstance(x.targets[0], ast.Name) and x.targets[0].id == v and
+                      any(isinstance(y, ast.Call) for y in ast.walk(x.value)) for x in arm)
+        keeps = not any(isinstance(x, ast.Assign) and any(isinstance(y, ast.Name) and y.id == v for y in x.targets) for x in other)
+        if ident and rebinds and keeps:
+            ctx.holds(acquire, tests[0], "placeholder only for names that are None (identity test); every other name is kept")
+        elif not ident:
+            ctx.violated(acquire, tests[0], "the level names that get a placeholder are selected by %s, not by an identity test against "
+                         "None: names such as 0 or '' would be replaced and later reset to None" % norm_text(t), text="none-name selection")
+        else:
+            raise AnalysisError("%s: the loop building the new level names was not understood" % acquire.name)
+        comp = None
+    v = comp[0].generators[0].target.id if comp else None
+    e = comp[0].elt if comp else None
     ok = False
     if isinstance(e, ast.IfExp) and isinstance(e.test, ast.Compare) and len(e.test.ops) == 1 and \
             isinstance(e.test.left, ast.Name) and e.test.left.id == v and isinstance(e.test.comparators[0], ast.Constant) and \
@@ -530,7 +558,9 @@ def _r4(ctx, acquire, release):
         keep, new = (e.body, e.orelse) if isinstance(e.test.ops[0], ast.IsNot) else \
             ((e.orelse, e.body) if isinstance(e.test.ops[0], ast.Is) else (None, None))
         ok = keep is not None and isinstance(keep, ast.Name) and keep.id == v and isinstance(new, ast.Call)
-    if ok:
+    if comp is None:
+        pass
+    elif ok:
         ctx.holds(acquire, comp[0], "placeholder only for names that are None (identity test); every other name is kept")
     else:
         ctx.violated(acquire, comp[0], "the level names that get a placeholder are selected by %s, not by an identity test against "
